@@ -710,6 +710,34 @@ E('sqrt', ['n'], key='sqrt_int', fam='B', tol=2)
 E('sqrt', ['k'], key='sqrt_negint', fam='B', tol=2)
 E('root', ['p', 'i:2:9'], key='root_real_pos', fam='B', tol=4)
 
+# --- the Riemann-Siegel routines are public entry points of their own (mp.rs_zeta, mp.rs_z), not only internals of zeta/siegelz
+def _rs_arg(r, c):
+    k = r.random()
+    if k < 0.35:
+        return r.choice([I(1), I(2), I(0), {'t': 'float', 'v': (0.5).hex()}, {'t': 'attr', 'v': 'nan'}, {'t': 'attr', 'v': 'inf'}, I(1000)])
+    if k < 0.7:
+        return {'t': 'mpc', 'v': [[0, '1', -1], mpf_spec(r, 12, 16, sign=0, maxwidth=53)['v']]}        # 0.5 + i t, t in [4096, 65536)
+    return {'t': 'mpc', 'v': [mpf_spec(r, -2, 2, maxwidth=53)['v'], mpf_spec(r, 12, 16, sign=0, maxwidth=53)['v']]}
+E('rs_zeta', [_rs_arg], key='rs_zeta_direct', fam='D', tol=10, cost=2, maxprec=64, ctxs=MPFP, kw={'derivative': (0.2, 'i:0:5')})
+E('rs_z', [lambda r, c: r.choice([I(0), I(1000), I(1), {'t': 'attr', 'v': 'nan'}]) if r.random() < 0.4 else real_spec(r, 12, 16, sign=0, cfg=c)],
+  key='rs_z_direct', fam='D', tol=10, cost=2, maxprec=64, ctxs=MPFP, kw={'derivative': (0.2, 'i:0:3')})
+
+# --- rational parameters given as (p, q) tuples (documented for zeta's second argument and the hypergeometric
+#     parameter lists); the numerator as int, float or mpf - all compare equal to the same cache key ----------------
+def _rat_tuple(r, c):
+    p = r.choice([1, 3, 5, 7, 7, 9, -1, -3, 11, 2, 4])
+    q = r.choice([2, 2, 2, 3, 4])
+    form = r.choice(['int', 'int', 'float', 'mpf'])
+    num = I(p) if form == 'int' else ({'t': 'float', 'v': float(p).hex()} if form == 'float' else
+                                      {'t': 'mpf', 'v': [1 if p < 0 else 0, '%x' % abs(p), 0]})
+    return {'t': 'tuple', 'v': [num, I(q)]}
+E('zeta', ['s', _rat_tuple], key='zeta_rat_tuple', fam='D', tol=8, cost=2, maxprec=300)
+E('hyper', [lambda r, c: L(_rat_tuple(r, c)), lambda r, c: L(), 'W'], key='hyper_rat_tuple', fam='G', tol=8, cost=2, maxprec=300)
+E('hyp1f1', [_rat_tuple, 'P', 'x'], key='hyp1f1_rat_tuple', fam='G', tol=8, cost=2, maxprec=300)
+E('hyp2f1', [_rat_tuple, 'x', 'P', 'W'], key='hyp2f1_rat_tuple', fam='G', tol=8, cost=2, maxprec=300)
+E('besselj', [lambda r, c: {'t': 'float', 'v': float(r.choice([1, 3, 5, 7, 9, -1, -3, 11]) / 2.0).hex()}, 'P'], key='besselj_half', fam='F', tol=8, cost=2, maxprec=300)
+E('hyp1f1', [lambda r, c: {'t': 'float', 'v': float(r.choice([1, 3, 5, 7, 9, 11]) / r.choice([2.0, 4.0])).hex()}, 'P', 'x'], key='hyp1f1_half', fam='G', tol=8, cost=2, maxprec=300)
+
 # --- large arguments (asymptotic branches) and the documented evaluation options of the hypergeometric machinery --------
 def _bigz(r, c):
     return real_spec(r, 6, 20, cfg=c)
